@@ -19,10 +19,12 @@ from ..sim import fs_tree as T
 
 ID = "C02"
 READY = True
-LEAN_TARGETS = ["NauyacaVerif.Props.C02"]
+LEAN_TARGETS = ["NauyacaVerif.Props.C02", "NauyacaVerif.Props.Translated"]
 THEOREMS = [f"NauyacaVerif.C02.{t}" for t in (
     "static_contained", "static_contained_url", "static_no_leak", "static_reads", "static_complete_os", "static_complete", "static_complete_tree",
     "pctDecode_pctEncode", "utf8Dec_utf8Enc", "canon_segments_clean", "index_rechecked", "metas_tie", "single_read_tie")]
+THEOREMS = list(THEOREMS) + ['NauyacaVerif.Translated.canonicalPath_eq', 'NauyacaVerif.Translated.canonStep_eq']
+TRANSLATED = ['canonicalPath']
 EXTRACT = ["defaultMaxFileSize"]
 ASSUMPTIONS = [
     "OS contract (DESIGN.md §3): Path.resolve is idempotent and reading through a path equals reading through its resolution; the theorems are over an abstract OS structure, containment is stated for the value resolve() returned",
